@@ -36,7 +36,10 @@ func (e *Engine) isRepoFn(f *ssa.Function) bool {
 }
 
 func (e *Engine) contractFor(f *ssa.Function) *Contract {
-	return e.CS.ByName[e.fnName(f)]
+	if c := e.CS.ByName[e.fnName(f)]; c != nil {
+		return c
+	}
+	return e.Rebound[e.fnName(f)]
 }
 
 // namedTypeKey gives "db.iterCB" for a named func type, "" otherwise.
@@ -143,7 +146,7 @@ func (fx *FX) noteUnknown(name string) {
 }
 
 func (fx *FX) inlineCall(fr *frame, st *State, callee *ssa.Function, args []Val, bindings []Val) []Val {
-	nf := &frame{fx: fx, fn: callee, vals: map[ssa.Value]Val{}, params: args, freeVals: bindings, cellClo: map[*ssa.Alloc]*Closure{}}
+	nf := &frame{fx: fx, fn: callee, vals: map[ssa.Value]Val{}, params: args, freeVals: bindings, cellClo: map[*ssa.Alloc]*Closure{}, parent: fr}
 	fx.inlineStack = append(fx.inlineStack, callee)
 	defer func() { fx.inlineStack = fx.inlineStack[:len(fx.inlineStack)-1] }()
 	saveDefers := st.defers
@@ -763,18 +766,22 @@ func (fx *FX) preserveLocalBoxes(fr *frame, old, st *State, args []Val) {
 		}
 	}
 	var refs []Val
-	for v, val := range fr.vals {
-		if al, ok := v.(*ssa.Alloc); ok && val.Addr == nil && val.T.S != "" {
-			if _, isStruct := derefType(al.Type()).Underlying().(*types.Struct); !isStruct {
-				refs = append(refs, Val{T: val.T, Typ: derefType(al.Type())})
+	// the cells of this frame and of every frame it is inlined into (an extracted helper must not
+	// lose what its caller knows about the caller's own cells)
+	for f := fr; f != nil; f = f.parent {
+		for v, val := range f.vals {
+			if al, ok := v.(*ssa.Alloc); ok && val.Addr == nil && val.T.S != "" {
+				if _, isStruct := derefType(al.Type()).Underlying().(*types.Struct); !isStruct {
+					refs = append(refs, Val{T: val.T, Typ: derefType(al.Type())})
+				}
 			}
 		}
-	}
-	for i, fv := range fr.fn.FreeVars {
-		if i < len(fr.freeVals) && fr.freeVals[i].Addr == nil && fr.freeVals[i].T.S != "" {
-			if pt, ok := fv.Type().Underlying().(*types.Pointer); ok {
-				if _, isStruct := pt.Elem().Underlying().(*types.Struct); !isStruct {
-					refs = append(refs, Val{T: fr.freeVals[i].T, Typ: pt.Elem()})
+		for i, fv := range f.fn.FreeVars {
+			if i < len(f.freeVals) && f.freeVals[i].Addr == nil && f.freeVals[i].T.S != "" {
+				if pt, ok := fv.Type().Underlying().(*types.Pointer); ok {
+					if _, isStruct := pt.Elem().Underlying().(*types.Struct); !isStruct {
+						refs = append(refs, Val{T: f.freeVals[i].T, Typ: pt.Elem()})
+					}
 				}
 			}
 		}
